@@ -16,6 +16,7 @@ structure PendOkW (P : List Pend) (nslow nasync : Nat) (released : List Nat) (ne
     | .run _ slot => p.tag = .r slot ∧ 1 ≤ slot ∧ slot ≤ nslow ∧ slot ∉ released
     | .del _ _ => ∃ n, p.tag = .d n ∧ n ≤ nasync
     | .cls _ => ∃ n, p.tag = .c n ∧ n ≤ nasync
+    | .upl _ n _ => p.tag = .u n ∧ n ≤ nasync
   minted : ∀ p ∈ P, ∀ i, sidOf p = some i → i < next
   sids : ∀ p ∈ P, (sidOf p).isSome = true
   relLe : ∀ k ∈ released, k ≤ nslow
@@ -27,6 +28,7 @@ theorem PendOk.weak {d : RState} (h : PendOk d) : PendOkW d.pend d.nslow d.nasyn
   cases hk : p.kind with
   | slow a b => rw [hk] at this; exact this
   | run a b => rw [hk] at this; exact this
+  | upl a b c => rw [hk] at this; exact this
   | del i f => rw [hk] at this; exact this.1
   | cls i => rw [hk] at this; exact this.1
 
@@ -56,6 +58,7 @@ theorem PendOkW.strong {P : List Pend} {ns na : Nat} {rel : List Nat} {st : Stat
     cases hk : p.kind with
     | slow a b => rw [hk] at hsh; exact hsh
     | run a b => rw [hk] at hsh; exact hsh
+    | upl a b c => rw [hk] at hsh; exact hsh
     | del i f => rw [hk] at hsh hl; exact ⟨hsh, hl⟩
     | cls i => rw [hk] at hsh hl; exact ⟨hsh, hl⟩
   · intro p hp; exact h.minted p (List.mem_filter.mp hp).1
@@ -100,6 +103,7 @@ theorem pendOf_sid {p : Pend} {x : Tag × Name} (h : pendOf p = some x) : ∃ i,
     | false => simp [hk] at h
     | true => simp [hk] at h; exact ⟨i, rfl, by rw [← h]⟩
   | cls i => simp [hk] at h; exact ⟨i, rfl, by rw [← h]⟩
+  | upl i n usr => simp [hk] at h; exact ⟨i, rfl, by rw [← h]⟩
 
 theorem isLive_lift_ne {s : State} {i j : Nat} {G : Sess → Sess} (hG : KeepsId G) (h : j ≠ i) (t : List Sess)
     (ht : t = s.tbl.map (lift i G)) (s2 : State) (h2 : s2.tbl = t) : isLive s2 j = isLive s j := by
@@ -143,7 +147,7 @@ theorem sim_one_op' {cfg : Cfg} {d d' : RState} {m : Mon} {o : Obs} (hs : Sim cf
     (hnodupX : (tblX.map (·.name)).Nodup) (hmintedX : ∀ a ∈ tblX, ∃ j, j < d.st.next ∧ a.name = sname j)
     (htarget : ∀ e ∈ d.st.tbl, e.id = i → EOk cfg d.st.now (nsOf P i) (nrOf P i) (G e) ∧ RelPreAt cfg P tblX (G e))
     (hans : chkAnswerO cfg (effFaults cfg m) m.tbl op.req status = none)
-    (hlog : chkLog cfg op.req status log = none)
+    (hlog : chkLogOp cfg m.pend op status log = none)
     (hnoid : chkNoId cfg op.req status hdr = false)
     (hmint : chkMint cfg m.tbl op.req status hdr = none)
     (hhdr : ∀ h, hdr = some h → h = sname i ∧ (monFind tblX (sname i)).isSome = true)
@@ -168,11 +172,11 @@ theorem sim_one_op' {cfg : Cfg} {d d' : RState} {m : Mon} {o : Obs} (hs : Sim cf
   obtain ⟨hd', ho⟩ := hop
   subst hd'; subst ho
   -- requests that complete now belong to session `i`, which is removed
-  have hnk : ∀ p ∈ P, keepOf st2 p = false → sidOf p = some i ∧ (∀ k, p.tag ≠ .p k) ∧ isLive st2 i = false := by
+  have hnk : ∀ p ∈ P, keepOf st2 p = false → sidOf p = some i ∧ ((∀ k, p.tag ≠ .p k) ∧ (∀ k, p.tag ≠ .u k)) ∧ isLive st2 i = false := by
     intro p hp hk
     have hsh := hpw.shape p hp
     have key : ∀ j, sidOf p = some j → isLive st2 j = false → keepOf d.st p = isLive d.st j →
-        (∀ k, p.tag ≠ .p k) → sidOf p = some i ∧ (∀ k, p.tag ≠ .p k) ∧ isLive st2 i = false := by
+        ((∀ k, p.tag ≠ .p k) ∧ (∀ k, p.tag ≠ .u k)) → sidOf p = some i ∧ ((∀ k, p.tag ≠ .p k) ∧ (∀ k, p.tag ≠ .u k)) ∧ isLive st2 i = false := by
       intro j hj hl hkd htag
       by_cases hji : j = i
       · subst hji; exact ⟨hj, htag, hl⟩
@@ -184,14 +188,17 @@ theorem sim_one_op' {cfg : Cfg} {d d' : RState} {m : Mon} {o : Obs} (hs : Sim cf
     cases hkind : p.kind with
     | slow a b => rw [hkind] at hk; cases hk
     | run a b => rw [hkind] at hk; cases hk
+    | upl a b c => rw [hkind] at hk; cases hk
     | del j f =>
       rw [hkind] at hk hsh
       obtain ⟨n, hn, _⟩ := hsh
-      exact key j (by simp [sidOf, hkind]) hk (by simp [keepOf, hkind]) (by intro k hk'; rw [hn] at hk'; cases hk')
+      exact key j (by simp [sidOf, hkind]) hk (by simp [keepOf, hkind])
+        ⟨(by intro k hk'; rw [hn] at hk'; cases hk'), (by intro k hk'; rw [hn] at hk'; cases hk')⟩
     | cls j =>
       rw [hkind] at hk hsh
       obtain ⟨n, hn, _⟩ := hsh
-      exact key j (by simp [sidOf, hkind]) hk (by simp [keepOf, hkind]) (by intro k hk'; rw [hn] at hk'; cases hk')
+      exact key j (by simp [sidOf, hkind]) hk (by simp [keepOf, hkind])
+        ⟨(by intro k hk'; rw [hn] at hk'; cases hk'), (by intro k hk'; rw [hn] at hk'; cases hk')⟩
   -- the monitor's bookkeeping of the completions
   have hexp : m.tbl.map (expire cfg (nowAfter m op)) = m.tbl := by rw [hnotick]; exact hs.expire_id
   have hdead := bookDone_dead m.now (sname i) (P.filterMap (doneOf st2)) tblX (P.filterMap pendOf) (by
@@ -206,7 +213,7 @@ theorem sim_one_op' {cfg : Cfg} {d d' : RState} {m : Mon} {o : Obs} (hs : Sim cf
     obtain ⟨j, hj, hxn⟩ := pendOf_sid hqx
     rw [hnkq.1] at hj
     cases hj
-    exact ⟨hxn, by rw [hqt.1]; exact hnkq.2.1⟩)
+    exact ⟨hxn, by rw [hqt.1]; exact hnkq.2.1.1, by rw [hqt.1]; exact hnkq.2.1.2⟩)
   have hpend2 := pend_after_completions (s := st2) hpw.tags m.now tblX
   -- the table after the bookkeeping: `tblX`, possibly with session `i` booked dead
   have htbl2 : ∃ tbl2, (bookDone m.now tblX (P.filterMap pendOf) (P.filterMap (doneOf st2))).1 = tbl2 ∧
@@ -291,8 +298,9 @@ theorem sim_one_op' {cfg : Cfg} {d d' : RState} {m : Mon} {o : Obs} (hs : Sim cf
       rw [hbd, htc.1]; exact htc.2.2.1
     · exact htc.2.2.2.1
     · exact hnoid
+    · exact chkClose_model hinv (fun e he => ⟨_, _, hP1.2 e he⟩)
   · obtain ⟨e1, e2, e3, e4, e5, e6, e7⟩ := monStep_mon cfg m op
-      { status := status, hdr := hdr, hang := hang, done := done0 ++ P.filterMap (doneOf st2), map := showMap st2, srv := showSrv st2, log := log }
+      { status := status, hdr := hdr, hang := hang, done := done0 ++ P.filterMap (doneOf st2), map := showMap st2, srv := showSrv st2, log := log, stale := showStale st2 }
     apply sim_finish (tbl2 := tbl2) (d' := { st := st2, nslow := ns', nasync := na', released := rel', pend := P.filter (keepOf st2) })
       hP1.1 hP1.2 hcfg' hs.stateful
     · rw [e1]
@@ -333,7 +341,7 @@ theorem sim_one_op {cfg : Cfg} {d d' : RState} {m : Mon} {o : Obs} (hs : Sim cfg
     (hnodupX : (tblX.map (·.name)).Nodup) (hmintedX : ∀ a ∈ tblX, ∃ j, j < d.st.next ∧ a.name = sname j)
     (htarget : ∀ e ∈ d.st.tbl, e.id = i → EOk cfg d.st.now (nsOf P i) (nrOf P i) (G e) ∧ RelPreAt cfg P tblX (G e))
     (hans : chkAnswerO cfg (effFaults cfg m) m.tbl op.req status = none)
-    (hlog : chkLog cfg op.req status log = none)
+    (hlog : chkLogOp cfg m.pend op status log = none)
     (hnoid : chkNoId cfg op.req status hdr = false)
     (hmint : chkMint cfg m.tbl op.req status hdr = none)
     (hhdr : ∀ h, hdr = some h → h = sname i ∧ (monFind tblX (sname i)).isSome = true)
